@@ -332,3 +332,18 @@ Contract(
     types={"return": MCI},
     props=("C01",),
 )
+
+
+# --- the notification entry points (C04: a client-side notification goes through _request_notify / a notify job) -----------------
+FIELDS.declare(NOTI, "_request")
+Contract(SP + "._notify",
+         ensures=[("notifier_bound_to_the_notification_sender", lambda c: z3.And(
+             c.returns, c.fresh_obj(c.ret), c.new(c.ret, "_request") == V.VFun(bound_fn(c.a.self, sv("_request_notify")))),
+             ("C04", "C01"))],
+         modifies=[Fresh("_request")], types={"return": NOTI}, props=("C04", "C01"))
+Contract(MC + "._notify",
+         requires=[("config", lambda c: z3.And(V.is_obj(c.old(c.a.self, "_config")), Val.ref(c.old(c.a.self, "_config")) >= 0))],
+         ensures=[("notifier_records_into_this_batch", lambda c: z3.And(
+             c.returns, c.fresh_obj(c.ret), c.new(c.ret, "multicall") == c.a.self,
+             c.new(c.ret, "_config") == c.old(c.a.self, "_config")), ("C04", "C01"))],
+         modifies=[Fresh("multicall"), Fresh("_config")], types={"return": MCN}, props=("C04", "C01"))
